@@ -750,7 +750,9 @@ func (l *Ledger) ConfirmBlock(block *pb.InternalBlock, isRoot bool) ConfirmStatu
 			confirmStatus.Error = lErr
 		}
 	}
-	l.blockCache.Add(string(block.Blockid), block)
+	if kvErr == nil {
+		l.blockCache.Add(string(block.Blockid), block)
+	}
 	l.xlog.Debug("confirm block cost", "blkTimer", blkTimer.Print())
 	return confirmStatus
 }
